@@ -147,6 +147,9 @@ type World struct {
 	Retained      []*Retained
 
 	ScanLeaks bool
+	// KeepEKRJSON records encoding/json's rendering of every key record the SDK stores (C18).
+	KeepEKRJSON bool
+	EKRJSON     []EKRDoc
 	Emitted   int // byte strings scanned for leaks
 	LogLines  int
 
@@ -548,4 +551,12 @@ func cloneBytes(b []byte) []byte {
 	out := make([]byte, len(b))
 	copy(out, b)
 	return out
+}
+
+// EKRDoc is the SDK's own JSON serialization of a key record it stored.
+type EKRDoc struct {
+	ID      string
+	Created int64
+	JSON    []byte
+	EKR     appencryption.EnvelopeKeyRecord
 }
